@@ -162,7 +162,9 @@ EndRun == /\ Ev("endrun")
 
 \* the FIRST examination of a test in a scope decides: if it finds every produced state, the test is not executed there
 Examined(t, sk) == \E x \in scans : x[1] = t /\ x[2] = sk
-Scan == /\ Ev("scan")
+\* (C08) state control requests go through the session of the worker the node was composed for
+OwnDoor == Note(E.own, "C08", <<"state-control-in-foreign-environment", E.a, E.w>>)
+Scan == /\ Ev("scan") /\ OwnDoor
         /\ LET req == SeqToSet(E.req)
                cands == {t \in Tests : Sets[t] # {} /\ Sets[t] = req}
                sk == ScopeKey(E.w)
@@ -173,18 +175,19 @@ Scan == /\ Ev("scan")
 \* a dependant is done when it has a completed execution, or was found reusable at its first examination
 Finished(t) == \/ \E i \in ExecIdx : execs[i].t = t /\ execs[i].s # "RUN"
                \/ \E x \in scans : x[1] = t /\ x[3]
-Unset == /\ Ev("unset")
+Unset == /\ Ev("unset") /\ OwnDoor
          /\ LET req == SeqToSet(E.req) IN
             /\ \A s \in req :
                  /\ Note(\E t \in Tests : s \in Unsets[t], "C05", <<"not-removable", s, E.w>>)
-                 /\ Note(\A d \in Dependants(s) \cap SeqToSet(T.selected) : ~\E r \in running : r.t = d, "C05", <<"dependant-running", s, E.w>>)
-                 /\ Note(\A d \in Dependants(s) \cap SeqToSet(T.selected) : Finished(d), "C05", <<"dependant-pending", s, E.w>>)
+                 \* (the source of clones is never run itself: its clones are the dependants)
+                 /\ Note(\A d \in (Dependants(s) \cap SeqToSet(T.selected)) \ CloneSrcs : ~\E r \in running : r.t = d, "C05", <<"dependant-running", s, E.w>>)
+                 /\ Note(\A d \in (Dependants(s) \cap SeqToSet(T.selected)) \ CloneSrcs : Finished(d), "C05", <<"dependant-pending", s, E.w>>)
             /\ pool' = [pool EXCEPT ![E.w] = @ \ req]
             /\ gone' = gone \cup req
          /\ UNCHANGED <<running, execs, pres, scans, ended>>
 
 \* with the default pool filter nothing is copied or altered while backing out
-Sync == /\ Ev("sync")
+Sync == /\ Ev("sync") /\ OwnDoor
         /\ Note(T.poolfilter = "copy", "C05", <<"sync-with-filter", T.poolfilter, E.w>>)
         /\ pool' = [pool EXCEPT ![E.w] = @ \cup (SeqToSet(E.req) \cap pool[Shared])]
         /\ UNCHANGED <<running, execs, pres, scans, gone, ended>>
